@@ -20,6 +20,15 @@ def build(tier, seed):
             cases.append({"id": f"tls{r}-{suites.VNAME[v]}-{code:04X}", "kind": "tls", "v": v, "code": code, "rep": r})
     for i in range(40000 if thorough else 500):
         cases.append({"id": f"quic-{i}", "kind": "quic", "i": i})
+    # edge values: secrets are searched (with the reference KDF) until a chosen component of the key material starts or ends with a zero byte / is all-ones at its
+    # first byte - values a key schedule written with integer arithmetic or C-string habits gets wrong once in 256 connections
+    edge_mx = mx if thorough else [m for j, m in enumerate(mx) if j % 7 == 0 or m[0] in (0x0300, 0x0301, 0x0302) and j % 3 == 0]
+    for r in range(4 if thorough else 1):
+        for j, (v, code, name, p) in enumerate(edge_mx):
+            for w in (EDGE_WHICH if thorough else [EDGE_WHICH[(j + r) % len(EDGE_WHICH)], EDGE_WHICH[(j + r + 3) % len(EDGE_WHICH)]]):
+                cases.append({"id": f"edge{r}-{suites.VNAME[v]}-{code:04X}-{w}", "kind": "tls", "v": v, "code": code, "rep": r, "edge": w})
+    for i in range(600 if thorough else 24):
+        cases.append({"id": f"quic-edge-{i}", "kind": "quic", "i": i, "edge": EDGE_WHICH[i % len(EDGE_WHICH)]})
 
     def evalfn(case):
         rng = random.Random(engine.subseed("C15", seed, case["id"]))
@@ -31,6 +40,29 @@ def build(tier, seed):
                      "lengths 0..20 x Retry x 0-RTT x 0..3 key-update generations. Class = (protocol, version/suite, shape); non-trivial = the key-installation "
                      "monitor fired and every RFC-defined component was compared",
                 assumptions=["vlib.refkdf (checked against RFC 5869 / RFC 9001 A.1, A.5 vectors at setup)"])
+
+
+EDGE_WHICH = ["first-zero", "client-key-zero", "server-key-zero", "client-iv-zero", "server-iv-zero", "last-zero", "first-ff"]
+
+
+def edge_ok(which, km):
+    """km: {'block': whole key material in RFC order, 'client_key', 'server_key', 'client_iv', 'server_iv'} -> does it have the edge value asked for"""
+    if which == "first-zero":
+        return km["block"][:1] == b"\x00"
+    if which == "first-ff":
+        return km["block"][:1] == b"\xff"
+    if which == "last-zero":
+        return km["block"][-1:] == b"\x00"
+    part = km.get(which[:-5].replace("-", "_"))
+    return bool(part) and part[0] == 0
+
+
+def search(which, make, rng, tries=6000):
+    for _ in range(tries):
+        secret = make()
+        if edge_ok(which, secret[1]):
+            return secret[0]
+    return None
 
 
 def cmp(name, got_hex, want, msgs):
@@ -50,13 +82,52 @@ def eval_tls(case, rng):
     spec.hs_secrets = rng.choice([True, True, True, False, "client", "server"])
     spec.sid_len = rng.choice([0, 32, 7])
     spec.group_server_flight = rng.choice([(1, 1, 1, 1), (4,), (2, 2)])
+    edge = case.get("edge")
+    if edge:
+        from vlib import refkdf
+        if v == 0x0304:
+            hl = __import__("hashlib").new(p["prf"]).digest_size
+            spec.hs_secrets = True
+
+            def make13():
+                sec = {k: rng.randbytes(hl) for k in ("chs", "shs", "cap", "sap")}
+                k = {n: refkdf.tls13_traffic_keys(p["prf"], s_, p["key_len"]) for n, s_ in sec.items()}
+                lvl = rng.choice(["hs", "ap"])
+                c, s_ = (k["chs"], k["shs"]) if lvl == "hs" else (k["cap"], k["sap"])
+                return sec, {"block": c[0] + c[1] + s_[0] + s_[1], "client_key": c[0], "server_key": s_[0], "client_iv": c[1], "server_iv": s_[1]}
+            spec.secrets13 = search(edge, make13, rng)
+        else:
+            # the sender draws the two randoms first: peek at them, then look for a master secret whose key block has the edge value
+            srng = random.Random(rng.random())
+            peek = random.Random()
+            peek.setstate(rng.getstate())
+            cr, sr = peek.randbytes(32), peek.randbytes(32)
+            iv_len = (12 if p["mode"] == "CHACHA" else 4) if p["aead"] else (p["block"] if p["mode"] == "CBC" and v <= 0x0301 else 0)
+            n = 2 * p["mac_len"] + 2 * p["key_len"] + 2 * iv_len
+
+            def make12():
+                m = srng.randbytes(48)
+                kb = refkdf.key_block(v, p["prf"], m, cr, sr, n)
+                return m, dict(refkdf.split_key_block(kb, p["mac_len"], p["key_len"], iv_len), block=kb)
+            spec.resumed = False
+            spec.master = search(edge, make12, srng) if not (edge.endswith("iv-zero") and not iv_len) else None
     conn = tlssynth.build_conn(spec, rng)
     ep = tcpcap.random_ep(rng)
     fl = scene.tls_flow(conn, ep, tcpcap.segments(conn.events, ep, tcpcap.cut_mss(1460)))
     items = scene.stamp(scene.merge([fl], rng, "concat"), rng)
     mon = monitors.TlsStateMonitor()
     res, files, argv = e2e.run_capture(scene.capture(items), scene.keylog_text([fl], rng), child_setup=mon.install)
-    out = {"cls": ["tls", suites.VNAME[v], f"{code:04X}", "hs-" + str(spec.hs_secrets)], "tags": [f"tls:{suites.VNAME[v]}:{p['mode']}"],
+    edge_hit = None
+    if edge:
+        rk_ = conn.ref_keys
+        if v == 0x0304:
+            edge_hit = any(edge_ok(edge, {"block": c[0] + c[1] + s_[0] + s_[1], "client_key": c[0], "server_key": s_[0], "client_iv": c[1], "server_iv": s_[1]})
+                           for c, s_ in ((rk_["client_hs"], rk_["server_hs"]), (rk_["client_app"], rk_["server_app"])))
+        else:
+            blk = b"".join(rk_.get(k) or b"" for k in ("client_mac", "server_mac", "client_key", "server_key", "client_iv", "server_iv"))
+            edge_hit = edge_ok(edge, dict({k: rk_.get(k) for k in ("client_key", "server_key", "client_iv", "server_iv")}, block=blk))
+    out = {"cls": ["tls", suites.VNAME[v], f"{code:04X}", "hs-" + str(spec.hs_secrets)] + (["edge", edge, bool(edge_hit)] if edge else []),
+           "tags": [f"tls:{suites.VNAME[v]}:{p['mode']}"] + ([f"edge:{edge}:{'hit' if edge_hit else 'not-applicable'}"] if edge else []),
            "sample": {"case": case["id"], "suite": suites.REGISTRY[code], "version": suites.VNAME[v], "client_random": conn.client_random.hex()}}
     fail = e2e.run_failed(res)
     if fail:
@@ -102,6 +173,21 @@ def eval_quic(case, rng):
     s = quicsynth.random_qspec(rng, napp=rng.choice([2, 6, 10]))
     if rng.random() < 0.6 and s.app:
         s.key_updates = tuple(sorted(rng.sample(range(len(s.app)), min(len(s.app), rng.choice([1, 2, 3, 4])))))
+    edge = case.get("edge")
+    if edge:
+        from vlib import refkdf
+        pq = suites.parse_name(suites.REGISTRY[s.suite])
+        hl = __import__("hashlib").new(pq["prf"]).digest_size
+
+        def makeq():
+            sec = {k: rng.randbytes(hl) for k in ("chs", "shs", "cap", "sap")}
+            k = {n_: refkdf.quic_keys(pq["prf"], s_, pq["key_len"]) for n_, s_ in sec.items()}
+            lvl = rng.choice(["hs", "ap"])
+            c, s_ = (k["chs"], k["shs"]) if lvl == "hs" else (k["cap"], k["sap"])
+            if rng.random() < 0.3:      # the header-protection key as the component under test
+                c, s_ = dict(c, key=c["hp"]), dict(s_, key=s_["hp"])
+            return sec, {"block": c["key"] + c["iv"] + c["hp"] + s_["key"] + s_["iv"] + s_["hp"], "client_key": c["key"], "server_key": s_["key"], "client_iv": c["iv"], "server_iv": s_["iv"]}
+        s.secrets = search(edge, makeq, rng)
     qc = quicsynth.build_qconn(s, rng)
     ep = tcpcap.random_ep(rng)
     fl = scene.quic_flow(qc, ep)
@@ -110,7 +196,7 @@ def eval_quic(case, rng):
     res, files, argv = e2e.run_capture(scene.capture(items), scene.keylog_text([fl], rng), child_setup=mon.install)
     ku = len(qc.info["key_updates_done"])
     out = {"cls": ["quic", f"{s.suite:04X}", s.odcid_len, "retry" if s.retry else "", "0rtt" if s.zero_rtt else "", f"ku{ku}"],
-           "tags": [f"quic:{s.suite:04X}", f"quic:ku{ku}"], "sample": {"case": case["id"], "spec": quicsynth.describe(s), "key_updates": ku}}
+           "tags": [f"quic:{s.suite:04X}", f"quic:ku{ku}"] + ([f"edge:{edge}:{'hit' if s.secrets else 'none'}"] if edge else []), "sample": {"case": case["id"], "spec": quicsynth.describe(s), "key_updates": ku}}
     fail = e2e.run_failed(res)
     if fail:
         return dict(out, v="inconclusive" if fail.startswith("INCONCLUSIVE") else "violated", msg=fail, files=files)
